@@ -600,11 +600,31 @@ func (f *File) ReadAt(p []byte, off int64) (n int, err error) {
 		return 0, config.ErrIsDirectory
 	}
 
+	// A positioned read must not move the offset used by Read, Write and Seek
+	curr := int64(0)
+	hadStream := f.readOpReader != nil
+	if f.writeBuf != nil {
+		if curr, err = f.writeBuf.Seek(0, io.SeekCurrent); err != nil {
+			return 0, err
+		}
+	} else if hadStream {
+		curr = int64(f.readOpReader.BytesRead)
+	}
+
 	if _, err := f.seekWithoutLocking(off, io.SeekStart); err != nil {
 		return 0, err
 	}
 
-	return f.readWithoutLocking(p)
+	n, err = f.readWithoutLocking(p)
+
+	if f.writeBuf == nil && !hadStream {
+		// No stream was open before this call, so the offset was zero: drop the stream instead of rewinding it
+		_ = f.closeWithoutLocking()
+	} else if _, serr := f.seekWithoutLocking(curr, io.SeekStart); serr != nil && err == nil {
+		err = serr
+	}
+
+	return n, err
 }
 
 // Read/write operations
